@@ -6,14 +6,18 @@ package c18
 import (
 	"bytes"
 	"crypto/sha256"
+	"encoding/json"
 	"errors"
 	"fmt"
 	"math/rand/v2"
 	"net"
 	"os"
+	"os/exec"
+	"path/filepath"
 	"sort"
+	"strconv"
+	"strings"
 	"sync"
-	"sync/atomic"
 	"testing"
 	"time"
 
@@ -32,15 +36,12 @@ const (
 	teardownBudget = 45 * time.Second
 )
 
-var inconcN atomic.Int64
-
-// poisoned: see KFCleanup handling in the race variant
-var poisoned atomic.Bool
+var inconcN p2psim.Inconclusive
 
 func inconclusive(rt *rapid.T, rec *ev.Rec, why string) {
-	n := inconcN.Add(1)
-	rec.Note("inconclusive_cases", fmt.Sprint(n))
 	rec.Note("inconclusive_last", why)
+	n := inconcN.Hit(why, func() { rec.Note("inconclusive_bailout", why); rec.Write() })
+	rec.Note("inconclusive_cases", fmt.Sprint(n))
 	rt.Skip("INCONCLUSIVE: " + why)
 }
 
@@ -113,7 +114,6 @@ func (s spec) String() string {
 type pair struct {
 	n     [2]*p2psim.Node
 	dir   string
-	born  time.Time
 	pipes [2]net.Conn
 }
 
@@ -129,22 +129,49 @@ type pair struct {
 //	    (P2P.Stop, duplicate-peer replacement, heartbeat timeout, failed write).
 const KFCleanup = "KF-C18-stream-cleanup-unsynchronised"
 
-// tooOldToStop: while KFCleanup is open, a connection that may already have sent a heartbeat is not
-// torn down inside a race-detector run, so that the known race (a) is excluded by construction and
-// any other race still fails the check.
-func tooOldToStop(born time.Time) bool {
-	return ev.Open(KFCleanup) && time.Since(born) > p2psim.HeartbeatEvery*6/10
-}
+// nodeSource hands out two fresh, unconnected nodes.
+type nodeSource func() (a, b *p2psim.Node, dir string)
 
-func newPair(rt *rapid.T, rec *ev.Rec) *pair {
+func freshNodes() (*p2psim.Node, *p2psim.Node, string) {
 	dir, err := os.MkdirTemp("", "c18-")
 	if err != nil {
-		rt.Fatalf("harness: %v", err)
+		panic(err)
 	}
-	p := &pair{dir: dir}
-	p.n[0], p.n[1] = p2psim.NewNode(dir+"/a", 1, 1), p2psim.NewNode(dir+"/b", 2, 1)
+	return p2psim.NewNode(dir+"/a", 1, 1), p2psim.NewNode(dir+"/b", 2, 1), dir
+}
+
+// pooledNodes creates n node pairs up front. p2p.New writes the package-level ReadTimeout and
+// WriteTimeout, which every connection's services read; a process has one P2P in production, so in
+// the race-detector run all P2P objects are created before the first connection exists (otherwise
+// the detector reports New() of case k+1 against a goroutine of case k - a harness artefact).
+func pooledNodes(n int) nodeSource {
+	type pr struct {
+		a, b *p2psim.Node
+		dir  string
+	}
+	var mu sync.Mutex
+	var pool []pr
+	for i := 0; i < n; i++ {
+		a, b, dir := freshNodes()
+		pool = append(pool, pr{a, b, dir})
+	}
+	return func() (*p2psim.Node, *p2psim.Node, string) {
+		mu.Lock()
+		defer mu.Unlock()
+		if len(pool) == 0 {
+			return freshNodes()
+		}
+		x := pool[len(pool)-1]
+		pool = pool[:len(pool)-1]
+		return x.a, x.b, x.dir
+	}
+}
+
+func newPair(rt *rapid.T, rec *ev.Rec, src nodeSource) *pair {
 	for attempt := 0; ; attempt++ {
-		p.born = time.Now()
+		p := &pair{}
+		p.n[0], p.n[1], p.dir = src()
+		var err error
 		p.pipes[0], p.pipes[1], err = p2psim.JoinPipes(p.n[0], p.n[1])
 		if err == nil {
 			return p
@@ -152,9 +179,6 @@ func newPair(rt *rapid.T, rec *ev.Rec) *pair {
 		p.close()
 		if errors.Is(err, p2psim.ErrTimeout) || p2psim.IsTimeoutErr(err) {
 			if attempt < 3 {
-				dir, _ = os.MkdirTemp("", "c18-")
-				p = &pair{dir: dir}
-				p.n[0], p.n[1] = p2psim.NewNode(dir+"/a", 1, 1), p2psim.NewNode(dir+"/b", 2, 1)
 				continue
 			}
 			inconclusive(rt, rec, "join: "+err.Error())
@@ -295,19 +319,11 @@ func (m *matcher) outstanding() string {
 }
 
 // runConcurrent is the body shared by the plain and the race-detector variant.
-func runConcurrent(rt *rapid.T, rec *ev.Rec, small bool) {
-	if poisoned.Load() {
-		return
-	}
+func runConcurrent(rt *rapid.T, rec *ev.Rec, small bool, src nodeSource) {
 	c := rec.Case()
 	sc := drawScenario(rt, small)
-	p := newPair(rt, rec)
-	stopPair := true
-	defer func() {
-		if stopPair {
-			p.close()
-		}
-	}()
+	p := newPair(rt, rec, src)
+	defer p.close()
 	m := &matcher{want: map[key]int{}, topicOf: map[[32]byte][]string{}, pubs: [2][]byte{p.n[0].Pub, p.n[1].Pub}}
 	type out struct {
 		spec
@@ -377,7 +393,8 @@ func runConcurrent(rt *rapid.T, rec *ev.Rec, small bool) {
 		rt.Fatalf("%s\nscenario: %s", viol, c.Descriptor())
 	}
 	if !ok {
-		inconclusive(rt, rec, fmt.Sprintf("messages outstanding after %v: %s (peers connected: %v/%v)", deliverBudget, m.outstanding(), p.n[0].Has(p.n[1].Pub), p.n[1].Has(p.n[0].Pub)))
+		inconclusive(rt, rec, fmt.Sprintf("messages outstanding after %v: %s (peers connected: %v/%v; node logs: %s / %s)", deliverBudget, m.outstanding(),
+			p.n[0].Has(p.n[1].Pub), p.n[1].Has(p.n[0].Pub), p.n[0].Log.PeerErrors(), p.n[1].Log.PeerErrors()))
 	}
 	// fence: one more message per topic and direction; nothing but the fences may arrive before them
 	fm := &matcher{want: map[key]int{}, topicOf: map[[32]byte][]string{}, pubs: m.pubs}
@@ -410,15 +427,11 @@ func runConcurrent(rt *rapid.T, rec *ev.Rec, small bool) {
 	c.ClassIf(multi > 1, "multi-packet>=2")
 	c.ClassIf(sc.hot, "same-stream-multipacket-contention")
 	if small {
-		// race-detector variant: malformed traffic from a raw peer tears ITS connection down while the
-		// honest connection stays; optionally after the connection has lived through a heartbeat tick
+		// race-detector variant: malformed traffic from a raw peer tears ITS connection down (from
+		// inside the receive service) while the honest connection stays; 1 in 5 after the connection has
+		// lived through a heartbeat tick. The honest pair is then stopped from outside (P2P.Stop).
 		if rapid.IntRange(0, 2).Draw(rt, "malformed-teardown") > 0 {
 			linger := rapid.IntRange(0, 4).Draw(rt, "linger") == 0
-			if linger && ev.Open(KFCleanup) {
-				rec.Exclude(KFCleanup)
-				linger = false
-			}
-			born := time.Now()
 			rp := connectRaw(rt, rec, p.n[0], p2psim.BLSKey(53))
 			c.Desc("raw-peer-malformed(linger=%v)", linger)
 			c.Class("malformed-teardown")
@@ -426,40 +439,15 @@ func runConcurrent(rt *rapid.T, rec *ev.Rec, small bool) {
 			if linger {
 				time.Sleep(p2psim.HeartbeatEvery + 150*time.Millisecond)
 			}
-			if tooOldToStop(born) {
-				rec.Exclude(KFCleanup + "/slow-case-left-running")
-				rec.Note("stopped_early", "a raw peer connection outlived the first heartbeat tick while "+KFCleanup+" is open; remaining cases not run")
-				poisoned.Store(true)
-			} else {
-				_ = rp.SendPacket(1000, true, []byte("unknown stream"))
-				if !p2psim.WaitFor(teardownBudget, func() bool { return !p.n[0].Has(rp.Pub) && rp.Closed() }) {
-					inconclusive(rt, rec, "no teardown after unknown stream id")
-				}
-				rp.Close()
+			_ = rp.SendPacket(1000, true, []byte("unknown stream"))
+			if !p2psim.WaitFor(teardownBudget, func() bool { return !p.n[0].Has(rp.Pub) && rp.Closed() }) {
+				inconclusive(rt, rec, "no teardown after unknown stream id")
 			}
+			rp.Close()
 			if !p.n[0].Has(p.n[1].Pub) || !p.n[1].Has(p.n[0].Pub) {
-				rt.Fatalf("the honest connection did not survive the teardown of the raw peer's connection")
-			}
-		}
-		if ev.Open(KFCleanup) {
-			// known race (b): never Stop() a connection from outside its receive goroutine in the
-			// detector run. A young connection is ended by cutting the pipe (both receive services
-			// then tear their side down themselves); one that may have sent a heartbeat (known race
-			// (a)) is left running, and no further case is started (p2p.New writes package globals
-			// that a live connection reads - one P2P per process in production).
-			stopPair = false
-			if tooOldToStop(p.born) {
-				rec.Exclude(KFCleanup + "/slow-case-left-running")
-				rec.Note("stopped_early", "a case outlived the first heartbeat tick while "+KFCleanup+" is open; remaining cases not run")
-				poisoned.Store(true)
-			} else {
-				rec.Exclude(KFCleanup + "/outside-stop-replaced-by-pipe-cut")
-				_ = p.pipes[0].Close()
-				if !p2psim.WaitFor(teardownBudget, func() bool { return !p.n[0].Has(p.n[1].Pub) && !p.n[1].Has(p.n[0].Pub) }) {
-					poisoned.Store(true)
-					inconclusive(rt, rec, "no teardown after the pipe was cut")
-				}
-				_ = os.RemoveAll(p.dir)
+				wallClock(rt, rec, p.n[0])
+				wallClock(rt, rec, p.n[1])
+				rt.Fatalf("the honest connection did not survive the teardown of the raw peer's connection (node logs: %s / %s)", p.n[0].Log.PeerErrors(), p.n[1].Log.PeerErrors())
 			}
 		}
 		c.Done(len(sc.senders) >= 2 && len(topics) >= 2)
@@ -472,12 +460,102 @@ func runConcurrent(rt *rapid.T, rec *ev.Rec, small bool) {
 // the packet boundary and small ones, both directions, between two real p2p.P2P objects.
 func TestC18Concurrent(t *testing.T) {
 	rec := ev.New(t, "C18")
-	rapid.Check(t, func(rt *rapid.T) { runConcurrent(rt, rec, false) })
+	rapid.Check(t, func(rt *rapid.T) { runConcurrent(rt, rec, false, freshNodes) })
 }
 
 // TestC18RaceSmall: the same concurrent scenarios with small payloads, run from the binary built
 // with -race (any DATA RACE report is a violation). Also usable without the detector.
+//
+// While the known finding KFCleanup is open, the scenarios run in a child process (this binary
+// re-executed with the same flags) and the parent removes exactly the known race reports - a write in
+// Stream.cleanup against an access in Stream.queueSend or Stream.handlePacket - from the verdict; any
+// other race report, failed case or panic of the child fails the parent. Nothing is excluded from the
+// scenarios themselves.
 func TestC18RaceSmall(t *testing.T) {
+	if raceEnabled && ev.Open(KFCleanup) && os.Getenv("C18_RACE_CHILD") == "" {
+		raceParent(t)
+		return
+	}
+	// net.Pipe, not the buffered conn: the buffered conn's mutex is shared by Read and Close and would
+	// order (and thereby hide from the detector) accesses of the receive service and of Stop()
+	defer func(v bool) { p2psim.UseNetPipe = v }(p2psim.UseNetPipe)
+	p2psim.UseNetPipe = true
 	rec := ev.New(t, "C18")
-	rapid.Check(t, func(rt *rapid.T) { runConcurrent(rt, rec, true) })
+	checks, _ := strconv.Atoi(os.Getenv("VERIF_CHECKS"))
+	if checks <= 0 {
+		checks = 100
+	}
+	src := pooledNodes(checks + checks/4 + 8)
+	rapid.Check(t, func(rt *rapid.T) { runConcurrent(rt, rec, true, src) })
+}
+
+func raceParent(t *testing.T) {
+	args := append([]string{}, os.Args[1:]...)
+	cmd := exec.Command(os.Args[0], args...)
+	cmd.Env = append(os.Environ(), "C18_RACE_CHILD=1")
+	out, err := cmd.CombinedOutput()
+	txt := string(out)
+	const sep = "=================="
+	var kept []string
+	known, unknown := 0, 0
+	for i, blk := range strings.Split(txt, sep) {
+		if !strings.Contains(blk, "WARNING: DATA RACE") {
+			kept = append(kept, blk)
+			continue
+		}
+		_ = i
+		isKnown := strings.Contains(blk, "p2p.(*Stream).cleanup()") &&
+			(strings.Contains(blk, "p2p.(*Stream).queueSend()") || strings.Contains(blk, "p2p.(*Stream).handlePacket()"))
+		if isKnown {
+			known++
+			continue
+		}
+		unknown++
+		kept = append(kept, sep+blk+sep)
+	}
+	rest := strings.Join(kept, "")
+	// the child's stats file is the evidence of this test; add what was filtered
+	noteFiltered(t.Name(), known)
+	t.Logf("%d race reports of the known finding %s removed from the verdict; %d other race reports", known, KFCleanup, unknown)
+	switch {
+	case unknown > 0:
+		t.Fatalf("race reports other than the known finding:\n%s", rest)
+	case strings.Contains(rest, "[rapid] failed") || strings.Contains(rest, "panic:") || strings.Contains(rest, "[rapid] flaky"):
+		t.Fatalf("child run failed:\n%s", rest)
+	case strings.Contains(rest, "INCONCLUSIVE:") && strings.Contains(rest, "exit 2"):
+		fmt.Println("INCONCLUSIVE: child run bailed out (machine too loaded) - exit 2")
+		os.Exit(2)
+	case err != nil && known == 0:
+		t.Fatalf("child run failed (%v):\n%s", err, rest)
+	}
+}
+
+// noteFiltered adds the number of filtered known race reports to the stats file the child wrote.
+func noteFiltered(test string, n int) {
+	dir := os.Getenv("VERIF_STATS_DIR")
+	if dir == "" {
+		return
+	}
+	shard := os.Getenv("VERIF_SHARD")
+	if shard == "" {
+		shard = "0"
+	}
+	p := filepath.Join(dir, test+"-"+shard+".json")
+	b, err := os.ReadFile(p)
+	if err != nil {
+		return
+	}
+	var m map[string]any
+	if json.Unmarshal(b, &m) != nil {
+		return
+	}
+	ex, _ := m["excluded"].(map[string]any)
+	if ex == nil {
+		ex = map[string]any{}
+	}
+	ex[KFCleanup+"/race-reports-filtered"] = n
+	m["excluded"] = ex
+	if b, err = json.Marshal(m); err == nil {
+		_ = os.WriteFile(p, b, 0o644)
+	}
 }
